@@ -135,7 +135,7 @@ pub fn subchecks(_ctx: &Ctx) -> Vec<SubCheck> {
 // must be reduced" — whatever is accepted is stored canonically (< m), and every canonical
 // representative, which is what `Serialize` emits, is accepted unchanged.
 
-fn serde_construct<M: crate::reps::ConstMod<N>, const N: usize>(t: &mut Tape, c: &mut Case) -> CaseResult
+pub(crate) fn serde_construct<M: crate::reps::ConstMod<N>, const N: usize>(t: &mut Tape, c: &mut Case) -> CaseResult
 where
     Uint<N>: crypto_bigint::Encoding,
 {
